@@ -213,7 +213,42 @@ impl<'a> UserModel<'a> {
         }
         // Clearing the target area also removes its links: capture them for undo
         diff_list.extend(self.range_link_diffs(target_area)?);
-        // clear the whole area (this resets array formulas)
+        // Clear the whole area (this resets array formulas). The clearing is recorded:
+        // replaying the diffs (redo, or another model applying them) must dissolve an
+        // array formula in the target before its cells are written one by one.
+        {
+            let ws = self.model.workbook.worksheet(sheet)?;
+            let mut old_value = Vec::new();
+            for row in target_area.row..target_area.row + target_area.height {
+                let mut old_row = Vec::new();
+                for column in target_area.column..target_area.column + target_area.width {
+                    old_row.push(match ws.cell(row, column) {
+                        Some(Cell::SpillCell { s, a, .. })
+                            if !matches!(
+                                ws.cell(a.0, a.1),
+                                Some(Cell::ArrayFormula {
+                                    kind: ArrayKind::Cse,
+                                    ..
+                                })
+                            ) =>
+                        {
+                            // the spill of a dynamic array is transient
+                            Some(Cell::EmptyCell { s: *s })
+                        }
+                        other => other.cloned(),
+                    });
+                }
+                old_value.push(old_row);
+            }
+            diff_list.push(Diff::RangeClearContents {
+                sheet,
+                row: target_area.row,
+                column: target_area.column,
+                width: target_area.width,
+                height: target_area.height,
+                old_value,
+            });
+        }
         self.model.range_clear_contents(target_area)?;
         // set the new values and styles
         for (target_row, target_column, old_value, old_style, new_value, style) in changes {
